@@ -123,6 +123,12 @@ func buildPair(p pairSpec, gate string) pairProg {
 		}
 		pp.handler = append(pp.handler, Op{Op: "recvAll"})
 		pp.fullDrain = true
+	case "bidi/slow-handler":
+		// the handler takes 3.5 s of real time before it starts receiving while the caller sends
+		// ahead: the messages wait in the server (one queued, one in the read loop's hand-off)
+		pp.sender = []Op{{Op: "send", N: p.N, Size: p.SizeC}, {Op: "closeSend"}, {Op: "arm"}, {Op: "recvAll"}, {Op: "trailer"}}
+		pp.handler = []Op{{Op: "sleepReal", N: 3500}, {Op: "recvAll"}, {Op: "send", N: 1, Size: p.SizeS}}
+		pp.fullDrain = true
 	case "bidi/fullduplex-handler":
 		// the handler receives in a goroutine of its own while it sends; the caller waits for the
 		// handler's messages before it sends anything
@@ -278,7 +284,14 @@ func c02Gen(tier string, seed int64, idx int) c02Case {
 			}
 			c.Streams = append(c.Streams, p)
 		}
-		if idx%7 == 3 && c.Topology != "proxy" {
+		if idx%200 == 10 {
+			// one stream alone with a handler that is slow in real time
+			p := c.Streams[0]
+			p.Pair, p.Kind, p.K, p.N, p.M, p.Park = "bidi/slow-handler", "bidi", 0, 4, 0, ""
+			c.Streams = []pairSpec{p}
+			c.Topology = "direct"
+		}
+		if idx%7 == 3 && c.Topology != "proxy" && idx%200 != 10 {
 			// the first stream's handler is full-duplex
 			p := &c.Streams[0]
 			p.Pair, p.Kind, p.K = "bidi/fullduplex-handler", "bidi", 0
@@ -747,6 +760,9 @@ func c02RunTopo(tier string, seed int64, idx int, topo string) *core.Result {
 		if p.Pair == "bidi/fullduplex-handler" {
 			res.Stat("full_duplex_handler_streams", 1)
 		}
+		if p.Pair == "bidi/slow-handler" {
+			res.Stat("slow_handler_streams", 1)
+		}
 	}
 	finish(tier, b, h, res)
 	return res
@@ -756,7 +772,7 @@ func init() {
 	core.Register(&core.Prop{
 		ID:    "C02",
 		Level: "exploration",
-		Rule:  "cases = 1..32 concurrent streams on one connection, each a (client program, handler program) pair from 9 admissible families over the 3 stream kinds with counts 0..200 and sizes {0,1,17,1Ki,4Ki,64Ki}; every third case is a directed window: one stream whose terminal receive (or a late send / late half-close) is parked by a hook between its done-check and its blocking step until the stream has been torn down. Non-trivial = the window rendezvous fired, or >=2 streams share the connection, or the stream has separate sender and receiver goroutines; distinct = distinct generated case descriptors. Every 7th multi-stream case makes its first stream's handler full-duplex (a goroutine of its own receives while the handler sends; the caller waits for the handler's messages before it sends). Receive objects on both sides already hold data (a reused message): a message with an empty encoding must replace it. Topologies: direct, client - proxy - Demux - Serve, fan-in - Demux - Serve, and (half of the proxy cases) a chain of three proxies in which responses, trailers and resets follow the recorded route back. Plus (quick 18, thorough 180) cases over the shipped websocket transport on loopback sockets whose writes stall half-way: 2..8 ping-pong bidi streams of 2..5 messages (0..64 KiB) with 2..16 unary calls alongside; every stream must deliver every echo in order and end with io.EOF (30 s wall bound = inconclusive). Plus (quick 16, thorough 128) complete-then-connection-end cases: the handler sends a message and returns success, the caller starts receiving only after message and trailer were read by the client and the connection then ended (io.EOF, wrapped io.EOF, custom error, context.Canceled): it must get the message and io.EOF. Plus (quick 4, thorough 24) cases over the shipped HTTP transport (two instances behind loopback servers, fake clock): the handler bursts 5..8 messages and returns success, the caller starts receiving after the burst has backed up and 3 s of the transport clock have passed: all messages, then io.EOF. Plus (quick 18, thorough 108) streams whose handler sets binary (-bin) header and/or trailer metadata with values that need base64 padding and differ between base64 alphabets: all messages, io.EOF and the values unchanged. In the HTTP family one message of every other case is 5 MiB. Plus (quick 16, thorough 96) streams one of whose caller-side transport writes fails once: what the handler received is a gap-free prefix of the messages whose Send returned nil. In the HTTP family every fourth case loses the HTTP response of one POST after the envelope was delivered: no message may arrive twice.",
+		Rule:  "cases = 1..32 concurrent streams on one connection, each a (client program, handler program) pair from 9 admissible families over the 3 stream kinds with counts 0..200 and sizes {0,1,17,1Ki,4Ki,64Ki}; every third case is a directed window: one stream whose terminal receive (or a late send / late half-close) is parked by a hook between its done-check and its blocking step until the stream has been torn down. Non-trivial = the window rendezvous fired, or >=2 streams share the connection, or the stream has separate sender and receiver goroutines; distinct = distinct generated case descriptors. Every 7th multi-stream case makes its first stream's handler full-duplex (a goroutine of its own receives while the handler sends; the caller waits for the handler's messages before it sends). Every 200th case is one stream whose handler takes 3.5 s of real time before it receives while the caller sends four messages ahead (slow, not dead: nothing may be lost). Receive objects on both sides already hold data (a reused message): a message with an empty encoding must replace it. Topologies: direct, client - proxy - Demux - Serve, fan-in - Demux - Serve, and (half of the proxy cases) a chain of three proxies in which responses, trailers and resets follow the recorded route back. Plus (quick 18, thorough 180) cases over the shipped websocket transport on loopback sockets whose writes stall half-way: 2..8 ping-pong bidi streams of 2..5 messages (0..64 KiB) with 2..16 unary calls alongside; every stream must deliver every echo in order and end with io.EOF (30 s wall bound = inconclusive). Plus (quick 16, thorough 128) complete-then-connection-end cases: the handler sends a message and returns success, the caller starts receiving only after message and trailer were read by the client and the connection then ended (io.EOF, wrapped io.EOF, custom error, context.Canceled): it must get the message and io.EOF. Plus (quick 4, thorough 24) cases over the shipped HTTP transport (two instances behind loopback servers, fake clock; every fourth is a long download - a message every 3 s of the transport's clock, 10 s idle timeout, the caller receiving promptly - which must outlive the idle timeout): the handler bursts 5..8 messages and returns success, the caller starts receiving after the burst has backed up and 3 s of the transport clock have passed: all messages, then io.EOF. Plus (quick 18, thorough 108) streams whose handler sets binary (-bin) header and/or trailer metadata with values that need base64 padding and differ between base64 alphabets: all messages, io.EOF and the values unchanged. In the HTTP family one message of every other case is 5 MiB. Plus (quick 16, thorough 96) streams one of whose caller-side transport writes fails once: what the handler received is a gap-free prefix of the messages whose Send returned nil. In the HTTP family every fourth case loses the HTTP response of one POST after the envelope was delivered: no message may arrive twice.",
 		Plan: func(tier string, seed int64) int {
 			return tierN(tier, 600, 24000) + tierN(tier, 18, 180) + tierN(tier, 16, 128) + tierN(tier, 4, 24) + tierN(tier, 18, 108) + tierN(tier, 16, 96)
 		},
